@@ -151,7 +151,9 @@ def gen_attempt(r: Any, kn: dict, faults: bool, sync: bool, has_ctx: bool) -> di
 
 
 def malformed_payload(r: Any) -> bytes:
-    c = r.randint(0, 4)
+    c = r.randint(0, 5)
+    if c == 5:
+        return r.choice([b"-1", b"-1", b"", b"null", b"0", b"[]"])      # tiny payloads, incl. the receiver's private end-of-queue marker value
     if c == 0:
         return bytes(r.randint(0, 255) for _ in range(r.randint(0, 24)))
     if c == 1:
@@ -325,6 +327,9 @@ def gen_worker_script(rs: int, knobs: Optional[dict] = None) -> dict:
             else:
                 tmo = tot + r.randint(1_000, 500_000)
             m["timeout"] = tmo / 1e6
+            if r.random() < 0.5:
+                for a in m["attempts"]:
+                    a["cleanup_us"] = duration(r, {"tiny": 2, "short": 3, "medium": 2})
         if ts.get("deps"):
             du = {}
             for nd in ts["deps"]:
